@@ -31,7 +31,8 @@ CLAIMED = {
             'giving exactly-once finalisation; correspondence check with a spy cassette log and replay of every saved recording',
             'Kernel-checked: every operation adds exactly create i then exactly one of save i / abort i to the cassette log, '
             'for all programs, faults, discards, sampling outcomes, exceptions and interrupts; a discarded recording is never '
-            'saved whatever the rest of the operation does.',
+            'saved whatever the rest of the operation does; a finalised recording object is closed and rejects later writes '
+            '(unless the cassette\'s save raised, in which case it stays open and nothing was stored).',
             'Trusted: Lean kernel; hand-written recorder model tied by differential execution; sequential programs.',
             'DESIGN.md 6/C05'),
     'C09': ('Lean 4 theorems: idle after every kind of run (induction on programs via the scope invariant), idle after any '
@@ -106,12 +107,17 @@ CLAIMED = {
     'C01': ('Lean 4 theorem by induction over interaction-tree programs with two stability lemmas (an input key keeps the '
             'world\'s envelope, an output-result key is never rewritten): replaying the final data of a record run reproduces '
             'every call outcome, runs no body and captures the recorded outputs one for one; lifted to the @operation / play() '
-            'level; tied to /repo by differential execution and a record-then-replay oracle on all cassettes',
+            'level; for worker threads an invariant proof over ALL schedules of a thread-level record/replay model (one atomic '
+            'step per intercepted call); tied to /repo by differential execution and a record-then-replay oracle on all cassettes, '
+            'threaded operations recorded and replayed on the real recorder under scheduler-chosen interleavings',
             'Kernel-checked: for every program (any calls, shared aliases, nested interceptions, data handlers) satisfying the '
             'property\'s premises (inputs are functions of their key, lawful handlers, no play_data in the control flow), a '
             'saved complete recording fetched with equal data replays to the same result with playback outputs = recorded outputs '
-            'in call order and no body executed. Partial: worker threads inside the operation are not covered by a theorem; the '
-            'tie records and replays threaded operations under scheduler-chosen interleavings.',
+            'in call order and no body executed. Worker threads: for every pair of interleavings (record, replay) of any number '
+            'of threads whose output aliases are thread-owned, every call is handed during replay what it was handed while '
+            'recording and the captured outputs equal the recorded ones entry by entry. Partial: two concurrently running threads '
+            'sending on ONE alias are outside the theorem (the ordinal depends on the schedule); CPython\'s switch points inside one '
+            'interception are C04\'s micro-step model.',
             'Trusted: Lean kernel; recorder model tied by differential execution; values opaque (serialisation faithfulness is '
             'C06/C07; known finding K7 on shared references); cassette round trip is a hypothesis discharged by C07.',
             'DESIGN.md 6/C01'),
